@@ -150,6 +150,9 @@ pub fn shift_event(asm: &Asm, mach: &mut Mach, cache: &mut ShiftLines, op: &'sta
             r.set("cl", *n);
         }
         let line: &str = if use_cl { &cl_line } else { &lines[*n as usize] };
+        // the assembler always writes `sal`; the interpreter also takes the spelling `shl` when given a line directly
+        let respelt: String;
+        let line: &str = if op == "sal" && variant % 4 == 3 && line.starts_with("sal ") { respelt = format!("shl {}", &line[4..]); &respelt } else { line };
         write_regs(&mut mach.vm, &r);
         let before = read_regs(&mach.vm);
         mach.vm.arch.flag = fin;
